@@ -24,6 +24,7 @@ class Obs:
     def cb_start(self, bid, inline=False): pass
     def cb_end(self, bid): pass
     def note(self, *a): pass
+    def workers_created(self, names, creator): pass
     stalled = False
     stall_waiters = ()
 
@@ -55,9 +56,13 @@ class SimThreadPool:
         self.idle = []; self.h_idle = None; self.in_cb = False; self.term_waiters = []
         self.handler_dead = False
         obs.note("pool_created", n)
+        me_ = s.me()
+        obs.note("proc_pool_created" if kill_on_terminate else "thread_pool_created", n,
+                 bool(me_ is not None and me_.role == "worker"))
         k = obs.next_pool_index()
         self.workers = [s.spawn("%s%d_%d" % (name, k, i), self._worker, role="worker") for i in range(n)]
         self.handler_t = s.spawn("handler%d" % k, self._handler, role="handler")
+        obs.workers_created([t.name for t in self.workers], me_.name if me_ else None)
 
     def apply_async(self, func, args=(), kwds=None, callback=None, error_callback=None):
         s = ds.S
@@ -176,9 +181,11 @@ class SimExecutor:
         self.state = "run"; self._temp_folder_manager = _TFM(); self.running = {}
         self.dead_workers = set(); self.inline_depth = 0
         k = obs.next_pool_index()
-        obs.note("executor_created", n)
+        me_ = s.me()
+        obs.note("executor_created", n, bool(me_ is not None and me_.role == "worker"))
         self.workers = [s.spawn("lw%d_%d" % (k, i), self._worker, role="worker") for i in range(n)]
         self.mgr = s.spawn("mgr%d" % k, self._manager, role="manager")
+        obs.workers_created([t.name for t in self.workers], me_.name if me_ else None)
 
     def submit(self, func):
         s = ds.S
@@ -385,6 +392,8 @@ def make_generic_backend(obs, cb_threads=1, retrieve_callback=True):
                 self._q = collections.deque(); self._out = collections.deque()
                 self._idle = []; self._cidle = []; self._n = n
                 k = obs.next_pool_index()
+                me_ = s.me()
+                obs.workers_created(["gw%d_%d" % (k, i) for i in range(n)], me_.name if me_ else None)
                 for i in range(n):
                     s.spawn("gw%d_%d" % (k, i), self._worker, role="worker")
                 for i in range(cb_threads):
